@@ -24,6 +24,7 @@ func checkC01(w *World, r *Report) {
 	r.Rule("R01.4", "multiplexer configuration admissible", 2)
 	r.Rule("R01.5", "websocket Write splits without gaps or overlaps", 1)
 	r.Rule("R01.6", "Write methods report the full count on success", 4)
+	r.Rule("R01.7", "every serving goroutine works on the connection accepted for it (no shared re-assigned variable)", 1)
 
 	c01Reads(w, r)
 	c01ReadAhead(w, r)
@@ -31,6 +32,17 @@ func checkC01(w *World, r *Report) {
 	c01Smux(w, r)
 	c01WsWrite(w, r)
 	c01WriteCounts(w, r)
+	ruleLoopVarEscape(w, r, "R01.7", connPkgs, "the goroutine started for connection N reads the variable after the loop stored connection N+1 into it: N is never served and N+1 is served twice, its bytes torn between two handlers")
+}
+
+// connPkgs: the packages that accept, dial and serve connections.
+func connPkgs(path string) bool {
+	for _, p := range []string{"/internal/server", "/internal/client", "/internal/client/listener", "/internal/client/upstream", "/internal/socketace", "/internal/streams", "/internal/streams/dns"} {
+		if path == modPath+p {
+			return true
+		}
+	}
+	return false
 }
 
 // c01WriteCounts: R01.6 — every Write([]byte) (int, error) method of the
